@@ -150,6 +150,50 @@ fn check_doc(src: &str, out: &mut Vec<String>) {
     }
 }
 
+// leading layout (whitespace, block and line comments) removed
+fn strip_layout(mut t: &str) -> &str {
+    loop {
+        let u = t.trim_start();
+        if u.starts_with("/*") { if let Some(k) = u.find("*/") { t = &u[k + 2..]; continue; } }
+        if u.starts_with("//") { if let Some(k) = u.find('\n') { t = &u[k + 1..]; continue; } }
+        return u;
+    }
+}
+// annotated members: the full range starts at the member's first token - `oneway` if present, else the type / `const` -
+// optionally extended backwards over the layout that follows the annotations; it contains the oneway range
+fn check_annotated(src: &str, out: &mut Vec<String>) {
+    let mut p = Parser::new();
+    p.add_content(0, src);
+    let res = p.validate();
+    let ast = match &res[&0].ast { Some(a) => a, None => { out.push(format!("WITNESS well-formed document has no tree; source: {:?}", src)); return; } };
+    fn check(src: &str, out: &mut Vec<String>, what: &str, name: &str, full: &Range, first: &str, anns: usize) {
+        ev();
+        if !wf(src, full, what, out) { return; }
+        let t = text(src, full);
+        let body = if anns > 0 { strip_layout(t) } else { t };
+        if !body.starts_with(first) { out.push(format!("WITNESS {} `{}`: full range starts with {:?}, expected its first token {:?}; source: {:?}", what, name, body.chars().take(20).collect::<String>(), first, src)); }
+        if t.trim_end() != t || t.ends_with("*/") { out.push(format!("WITNESS {} `{}`: full range ends with layout; source: {:?}", what, name, src)); }
+    }
+    match &ast.item {
+        Item::Interface(i) => for el in &i.elements { match el {
+            InterfaceElement::Method(m) => {
+                let first = if m.oneway && text(src, &m.oneway_range) == "oneway" { "oneway".to_string() } else { text(src, &m.return_type.full_range).to_string() };
+                check(src, out, "method", &m.name, &m.full_range, &first, m.annotations.len());
+                ev();
+                if wf(src, &m.oneway_range, "oneway", out) && !inside(&m.oneway_range, &m.full_range) { out.push(format!("WITNESS method `{}`: oneway range outside the full range; source: {:?}", m.name, src)); }
+                if wf(src, &m.transact_code_range, "transact code", out) && !inside(&m.transact_code_range, &m.full_range) { out.push(format!("WITNESS method `{}`: transact code range outside the full range; source: {:?}", m.name, src)); }
+                if !inside(&m.symbol_range, &m.full_range) || !inside(&m.return_type.full_range, &m.full_range) { out.push(format!("WITNESS method `{}`: name or return type outside the full range; source: {:?}", m.name, src)); }
+            }
+            InterfaceElement::Const(c) => check(src, out, "const", &c.name, &c.full_range, "const", c.annotations.len()),
+        } },
+        Item::Parcelable(pa) => for el in &pa.elements { match el {
+            ParcelableElement::Field(f) => { let first = text(src, &f.field_type.full_range).to_string(); check(src, out, "field", &f.name, &f.full_range, &first, f.annotations.len()); }
+            ParcelableElement::Const(c) => check(src, out, "const", &c.name, &c.full_range, "const", c.annotations.len()),
+        } },
+        Item::Enum(_) => (),
+    }
+}
+
 fn layouts(tokens: &[&str]) -> Vec<String> {
     // tokens joined by: single space; nothing where the lexer does not need a separator is NOT attempted (kept simple);
     // double space + tab; LF; CRLF; block comment with multi-byte text; line comment
@@ -170,6 +214,10 @@ fn c04_all() {
             for l in layouts(&toks) { docs += 1; check_doc(&l, &mut out); if out.len() > 30 { break; } }
         }
     } }
+    for d in ["package p ; interface I { @Ann oneway void g ( ) = 3 ; @A @B ( x = 1 ) int h ( in int a ) ; oneway void k ( ) ; @C const int K = 1 ; @D oneway List < String > m ( ) ; }",
+              "package p ; parcelable P { @Nullable String s ; @A @B int [ ] a = 1 ; @C const int K = 1 ; int plain ; }"].iter() {
+        for l in layouts(&d.split(' ').collect::<Vec<_>>()) { docs += 1; check_annotated(&l, &mut out); }
+    }
     let e = "package p ; enum E { A = 1 , B , C = 3 , }";
     for l in layouts(&e.split(' ').collect::<Vec<_>>()) { docs += 1; check_doc(&l, &mut out); }
     // syntax diagnostics: an unlexable character gets an empty range exactly at that character; an unexpected token is
@@ -207,6 +255,6 @@ fn c04_all() {
     }
     out.sort(); out.dedup();
     for w in out.iter().take(12) { println!("{}", w.chars().take(700).collect::<String>()); }
-    println!("ORACLE-STATS evaluations={} distinct={} rule=each range comparison (well-formedness, line/col, name text, nesting, sibling order) on 12 x 6 type shapes x 2 frames x 6 layouts + enum + 28 malformed documents (unlexable character / unexpected token / end of input, 4 paddings)", unsafe { EVALS }, docs);
+    println!("ORACLE-STATS evaluations={} distinct={} rule=each range comparison (well-formedness, line/col, name text, nesting, sibling order) on 12 x 6 type shapes x 2 frames x 6 layouts + enum + annotated members (first token, oneway / code ranges inside) + 28 malformed documents (unlexable character / unexpected token / end of input, 4 paddings)", unsafe { EVALS }, docs);
     assert!(out.is_empty(), "witness found");
 }
